@@ -291,6 +291,10 @@ def main(argv=None):
         print("HARNESS-ERROR workload cannot make progress: %r %r" % (
             dict(total['status']), total['notes'].most_common(2)))
         rc = 2
+    missing = [r for r in engine.REACH.get(focus, []) if not total['stats'].get(r)]
+    if missing and total['runs'] >= 1500 and rc == 0:
+        print("HARNESS-ERROR reach probes stuck at zero: %s" % missing)
+        rc = 2
     if total['viols']:
         rc = 1
         seen = set()
@@ -317,6 +321,7 @@ def main(argv=None):
     extra.setdefault('rule', 'seeded class-directed histories; distinct = distinct (model state digest, '
                              'operation class) transitions after which the focused oracle was evaluated')
     extra['known_findings_printed'] = known
+    extra['reach_probes'] = {r: total['stats'].get(r, 0) for r in engine.REACH.get(focus, [])}
     extra['regression_replays_run'] = getattr(run_regressions, 'count', 0)
     extra['violations_reported'] = reported
     extra['components'] = REAL_VS_STUB
